@@ -118,6 +118,26 @@ def make_handler(name, anns, ret=None):
     return g[name]
 
 
+def _same_named():
+    """value-dependent types whose class names collide with each other and with a generated suffix (X, X, X0)."""
+    from ovld.dependent import dependent_check
+
+    def mk(name, fn):
+        fn.__name__ = fn.__qualname__ = name
+        return dependent_check(fn)
+
+    def a(value: int, n):
+        return value % 2 == n
+
+    def b(value: int, n):
+        return value > n
+
+    def c(value: int):
+        return value < 0
+
+    return mk("Bit", a), mk("Bit", b), mk("Bit0", c)
+
+
 def families(tier):
     L = lambda *vs: Literal[tuple(vs)] if len(vs) > 1 else Literal[vs[0]]
     fam = []
@@ -173,6 +193,10 @@ def families(tier):
 
     fam.append(([[HasMethod["__add__"] & Dependent[int, positive]], [int]], [(int,), (bool,)]))
     fam.append(([[Dependent[int, positive] & HasMethod["bit_length"]]], [(int,)]))
+    BitA, BitB, Bit0 = _same_named()
+    fam.append(([[Bit0, BitA[1], BitB[2]], [int, int, int]], [(int, int, int)]))
+    fam.append(([[BitA[0], Bit0, BitB[5]]], [(int, int, int)]))
+    fam.append(([[L(i), KW("k", object)] for i in range(1, 6)] + [[int, KW("k", object)]], [(int, KW("k", str))]))
     # keyword-only parameters in the value dispatcher (conditions on them; passed on as keywords on every path)
     fam.append(([[Dependent[int, positive], KW("k", object)], [Dependent[int, even], KW("k", object)], [int, KW("k", object)]], [(int, KW("k", str))]))
     fam.append(([[int, KW("mode", L("r"))], [int, KW("mode", L("w"))]], [(int, KW("mode", str))]))
